@@ -784,6 +784,10 @@ class Interp:
             if isinstance(e, ast.GeneratorExp):
                 return iter(out)        # evaluated eagerly (its element expressions are side-effect free in the analysed code), consumed once like a generator
             return set(out) if isinstance(e, ast.SetComp) else out
+        if isinstance(e, ast.DictComp):
+            outd = {}
+            self._comp(e.generators, 0, env, lambda en: outd.__setitem__(self.ev(e.key, en), self.ev(e.value, en)))
+            return outd
         if isinstance(e, ast.Call):
             return self.call(e, env)
         if isinstance(e, ast.Yield):
